@@ -30,6 +30,16 @@ NEEDS = {
  "C18b": "an output stream that starts failing exactly within the last 16 bytes of the file",
  "C20a": "two or more threads constructing vertex-cell circulators on a const mesh at the same time",
  "C20b": "mesh whose incidences were re-enabled (file load / garbage_collection) and two threads whose first hehf/hec query overlaps",
+ "C08a": "face built from a vertex list that traverses a not-yet-existing edge in both directions (2-gon / spike), NDEBUG build",
+ "C08b": "prev_halfedge_in_halfface on an even halfface of non-power-of-two valence at the halfedge stored first",
+ "C09a": "boundary edge whose first stored halfface has at least two cells behind it in the fan (fan built faces-first in arbitrary order / cell deleted from a ring)",
+ "C09b": "cell containing both halffaces of one face, adjacent_halfface_in_cell queried from one of them",
+ "C15a": "collapse_edge with deferred deletion off, fast deletion on and the target vertex at index n-1 or n-2",
+ "C15b": "run-time TetTopology::triangle_topology(label) with label CDB",
+ "C16a": "topology-checked hex add_cell of a list not in convention order whose first halfface is an odd handle",
+ "C16b": "hex add_cell(8 vertices) where the mesh already holds a different quad sharing two consecutive edges with a face of the new hex",
+ "C19a": "integer vector divided by a scalar other than +-1",
+ "C19b": "cell barycenter of a cell whose vertices do not all touch the same number of faces (pyramid)",
 }
 root = "/tmp/wt"
 dst = "/verif/seeded"
